@@ -83,6 +83,29 @@ impl Report {
             self.samples.push(v);
         }
     }
+    /// `Err` strings produced by `panic_err` are compiler panics; anything else is a machinery problem.
+    pub fn engine_error(&mut self, property: &str, m: String) {
+        match m.strip_prefix("PANIC\u{1}") {
+            Some(rest) => {
+                let mut it = rest.splitn(3, '\u{1}');
+                let (input, opts, msg) = (it.next().unwrap_or(""), it.next().unwrap_or("null"), it.next().unwrap_or(""));
+                let options = serde_json::from_str(opts).unwrap_or(Value::Null);
+                self.subject_panic(property, input, options, msg);
+            }
+            None => self.machinery_errors.push(m),
+        }
+    }
+
+    /// The compiler panicked on an input of a property's space: the property cannot hold there (no output at all).
+    pub fn subject_panic(&mut self, property: &str, input: &str, options: Value, msg: &str) {
+        let class: String = msg.chars().map(|c| if c.is_ascii_digit() { 'N' } else { c }).take(48).collect();
+        self.violation(Violation {
+            fingerprint: format!("{}|compiler-panic|{}", property, class),
+            what: format!("the compiler panics ({}) on the well-formed stylesheet {:?} with options {}", msg.chars().take(200).collect::<String>(), input, options),
+            replay: serde_json::json!({"engine": property.to_lowercase(), "kind": "panic", "input": input, "options": options}),
+        });
+    }
+
     pub fn violation(&mut self, v: Violation) {
         let key = v.fingerprint.clone();
         if let Some(e) = self.violations.get_mut(&key) {
@@ -335,4 +358,9 @@ pub fn str_unrank(mut i: u64, alpha: u64, max_len: u32) -> Vec<usize> {
         i /= alpha;
     }
     out
+}
+
+/// Encodes a panic of the compiler (stage, message) on `input` as an `Err` string that `Report::engine_error` recognises.
+pub fn panic_err(input: &str, options: &Value, stage: &str, msg: &str) -> String {
+    format!("PANIC\u{1}{}\u{1}{}\u{1}{}: {}", input, options, stage, msg)
 }
